@@ -206,18 +206,24 @@ def _walk_same_function(node):
 
 
 def own_iterable_reads(tree):
-    """{position of a read: name} for reads of a comprehension variable located inside the iterable of the very generator
-    that binds it (`... for c in f(c)`): from the second trip on CPython finds the previous trip's value there."""
+    """{position of a read: name} for reads of a comprehension variable located BEFORE the generator clause that binds it, inside
+    the same comprehension: in that clause's own iterable (`... for c in f(c)`) or in the iterable / a condition of an earlier
+    clause (`for i in xs if g(e) for e in ys`). A comprehension is a loop nest: from the second trip of the outer clauses on,
+    CPython finds the previous trip's value there."""
     out = {}
     for node in ast.walk(tree):
         if isinstance(node, (ast.ListComp, ast.SetComp, ast.DictComp, ast.GeneratorExp)):
             for i, g in enumerate(node.generators):
                 if i == 0:
-                    continue          # the first iterable is evaluated outside the comprehension, once
+                    continue          # a target of the first clause is bound before anything else of the comprehension runs again
                 tnames = {n.id for n in ast.walk(g.target) if isinstance(n, ast.Name)}
-                for n in ast.walk(g.iter):
-                    if isinstance(n, ast.Name) and isinstance(n.ctx, ast.Load) and n.id in tnames:
-                        out[(n.lineno, n.col_offset)] = n.id
+                before = [g.iter]
+                for j, h in enumerate(node.generators[:i]):
+                    before += list(h.ifs) + ([h.iter] if j else [])     # the first iterable is evaluated outside, once
+                for part in before:
+                    for n in ast.walk(part):
+                        if isinstance(n, ast.Name) and isinstance(n.ctx, ast.Load) and n.id in tnames:
+                            out[(n.lineno, n.col_offset)] = n.id
     return out
 
 
